@@ -14,6 +14,8 @@ def explore(run, lean):
                          "source, stop() from another thread racing those steps, or from a handler; after stop() returns no step, no "
                          "timer post, no source with its run flag set")
     run.assumptions.append("virtual time: sleep(p) wakes exactly p ticks later; real-clock drift (execution time per cycle) is not modelled")
+    ROUND6_RULE = '; stop() from a handler replayed on the Lean model Conc.AOOwn (family aoown); after a self-stop the client arms one more source and calls stop() from outside'
+    run.extra["rule"] += ROUND6_RULE
 
 
 def replay(case):
